@@ -127,13 +127,15 @@ class C08(Check):
         'encoding names are ASCII without CSS escapes',
         'escapecss: the encodings used are stateless (representability is a predicate on single characters)',
     )
-    rule = ('A: the full table {override None/""/name} x {HTTP None/""/name} x {8 content headers} x {parent None/""/name} '
-            'x {bytes,text} x {6 fetcher result shapes}, encodings drawn from 7 mutually distinguishable ones (each '
-            'choice decodes the probe bytes to a different text) plus unknown names; B: generated import trees '
-            '(depth<=3, missing/recursive/duplicate/late imports, comment or white space first, bytes/text nodes) x '
-            'parseString/parseUrl x override; C: random edit histories; D: texts over escape-relevant alphabets x 12 '
-            'encodings; sheets from a position-wise content grammar x target encodings. non-trivial = the case is not '
-            'decided by the default (UTF-8, nothing to escape, no charset rule involved)')
+    rule = ('A: the full table {override None/""/name} x {HTTP None/""/name} x {parent None/""/name} x {17 byte contents, '
+            '8 text contents, 5 results without content, list-for-tuple}, per round a fresh injective assignment of 7 mutually '
+            'distinguishable encodings (each decodes the probe bytes C3 A4 / E4 to a different text), last round with a name '
+            'CPython does not know; B: 11 fixed + generated import trees (1-5 nodes, depth<=3, missing/recursive/duplicate/late '
+            'imports, comment or white space first, bytes/text nodes, 5 @import spellings) x parseString/parseUrl x override; '
+            'C: 4 fixed + random edit histories of 1-9 public operations; D: texts over an escape-relevant alphabet x 12 target '
+            'encodings, and for unicodesub; R: 22 fixed + generated sheets from 21 position-wise templates x target encodings. '
+            'non-trivial = not decided by the default (an encoding other than UTF-8-by-default is chosen, a charset rule is '
+            'involved, something had to be escaped, the unescaped text differs from the text)')
 
     # ------------------------------------------------------------------------------------------
     def run(self, ctx):
